@@ -7,7 +7,7 @@ THEOREMS = SC.THEOREMS + [
 ]
 PARTIAL = SC.PARTIAL
 COMPONENTS = SC.COMPONENTS
-RULE = ('scaled assets over captured real base problems (SimpleContract, Contract with takes, Storage 1|2 nodes, Transport, ExtendedTransport, MultiCommodity, Plant, OrderBook incl. orders outside the horizon) and structured assets over captured inner portfolios; oracles: fixed scale = base with all capacities * s/norm minus fixed costs, free scale >= every fixed scale and = the reported scale, structured vs flat portfolio (value, external dispatch); '
+RULE = ('scaled assets over captured real base problems (SimpleContract, Contract with takes, Storage 1|2 nodes, Transport, ExtendedTransport, MultiCommodity, Plant, OrderBook incl. orders outside the horizon) and structured assets over captured inner portfolios; the scaled asset with an own window (start / end / both; inside, straddling, covering, outside the horizon) in 45% of the scaled cases, over bases with and without a window of their own; oracles: fixed scale = base with all capacities * s/norm on the window of the base intersected with the own window of the scaled asset, minus fixed costs over the own window of the scaled asset, free scale >= every fixed scale and = the reported scale, structured vs flat portfolio (value, external dispatch); '
         'non-trivial = oracle compared a solved pair; distinct by case hash')
 ASSUMPTIONS = ['values compared with tolerance 2e-6 relative']
 EXPLANATION = 'theorems about the models of ScaledAsset / StructuredAsset on arbitrary base problems; correspondence on captured real base problems; equivalent-portfolio oracles on the real code'
